@@ -66,6 +66,12 @@ func (w *World) applyFault(orig []byte, f *Fault) []byte {
 		}
 		d[f.Off] ^= byte(f.Bit)
 		d[f.Val] ^= byte(f.Len)
+	case "ckpreserve":
+		// corruption that a weak checksum does not notice (what gets past the UDP checksum or a link CRC in
+		// real networks, and past any short-cut comparison by CRC / sum / xor inside an implementation)
+		if !checksumPreservingEdit(d, f.Val, f.Off, f.Len, f.Bit) {
+			return nil
+		}
 	case "splice": // d[:off] of this one, other[off:] of the second
 		o := w.dgram(f.With)
 		if o == nil || f.Off < 0 || f.Off > len(d) || f.Off > len(o.Bytes) {
@@ -188,4 +194,80 @@ func (w *World) applyFault(orig []byte, f *Fault) []byte {
 		return nil
 	}
 	return d
+}
+
+// checksumPreservingEdit alters d (never to the same octets) such that one family of weak checksums over the
+// whole datagram is unchanged. variant 0/1: XOR with the CRC-32 generator (IEEE / Castagnoli) at stream bit
+// position a, reflected bit order as in hash/crc32; 2/3: the same, most significant bit first; 4: swap the
+// 16-bit words at octet offsets a and b (ones'-complement sum, Fletcher-free sums); 5: octet a += k, octet
+// b -= k without carry (additive sums); 6: XOR octets a and b with k (xor checksums; also octet sums when
+// the flipped bits differ in the two octets).
+func checksumPreservingEdit(d []byte, variant, a, b, k int) bool {
+	switch variant {
+	case 0, 1, 2, 3:
+		poly := uint32(0x04C11DB7)
+		if variant&1 == 1 {
+			poly = 0x1EDC6F41
+		}
+		if a < 0 || a+33 > len(d)*8 {
+			return false
+		}
+		flip := func(p int) {
+			if variant < 2 {
+				d[p/8] ^= 1 << uint(p%8)
+			} else {
+				d[p/8] ^= 0x80 >> uint(p%8)
+			}
+		}
+		flip(a)
+		for i := 0; i < 32; i++ {
+			if poly&(1<<uint(31-i)) != 0 {
+				flip(a + 1 + i)
+			}
+		}
+		return true
+	case 4:
+		if a < 0 || b < 0 || a+2 > len(d) || b+2 > len(d) || a%2 != b%2 || a == b || (d[a] == d[b] && d[a+1] == d[b+1]) {
+			return false
+		}
+		d[a], d[b] = d[b], d[a]
+		d[a+1], d[b+1] = d[b+1], d[a+1]
+		return true
+	case 5:
+		k &= 0xff
+		if a < 0 || b < 0 || a >= len(d) || b >= len(d) || a == b || k == 0 || int(d[a])+k > 255 || int(d[b])-k < 0 {
+			return false
+		}
+		d[a] += byte(k)
+		d[b] -= byte(k)
+		return true
+	case 6:
+		k &= 0xff
+		if a < 0 || b < 0 || a >= len(d) || b >= len(d) || a == b || k == 0 {
+			return false
+		}
+		d[a] ^= byte(k)
+		d[b] ^= byte(k)
+		return true
+	}
+	return false
+}
+
+// genChecksumPreserving draws a ckpreserve fault for a datagram of about n octets.
+func genChecksumPreserving(r *Rng, n int) *Fault {
+	if n < 40 {
+		n = 40
+	}
+	v := r.Intn(7)
+	f := &Fault{Kind: "ckpreserve", Val: v}
+	switch {
+	case v < 4:
+		f.Off = r.Intn(n*8 - 33)
+	case v == 4:
+		f.Off = r.Intn(n - 2)
+		f.Len = f.Off%2 + 2*r.Intn((n-2)/2)
+	default:
+		f.Off, f.Len, f.Bit = r.Intn(n), r.Intn(n), 1<<uint(r.Intn(8))
+	}
+	return f
 }
